@@ -5,6 +5,7 @@ import (
 	"go/token"
 	"go/types"
 	"math"
+	"strings"
 
 	"golang.org/x/tools/go/ssa"
 )
@@ -29,11 +30,13 @@ func byteSliceArgMods(argIdx int) func(c *ssa.CallCommon, ms *modSet) {
 
 const u8comp = "E:uint8"
 
-var u8compSort = SArr(SInt, SArr(SIdx, SBV(8)))
+func u8compSortF() string { return SArr(SInt, SArr(SIdx, SBV(8))) }
 
 func (fr *frame) byteAt(s *Val, i Term) Term {
 	ft := fr.ft
 	bk := s.backing()
+	i = ft.c.Define("bi", i)
+	ft.c.AddInst(i)
 	lv := bk.extend(Step{Idx: &i}, types.Typ[types.Uint8])
 	return ft.load(fr.cur.mem, lv).L[0]
 }
@@ -55,7 +58,26 @@ func (fr *frame) readInt(s *Val, nbytes int, little bool) Term {
 	if nbytes == 1 {
 		return parts[0]
 	}
+	if gInt {
+		// most significant first: value = sum parts[j] * 256^(n-1-j)
+		var terms []string
+		for j, p := range parts {
+			terms = append(terms, fmt.Sprintf("(* %s %s)", pow2(8*(nbytes-1-j)).String(), p.T))
+		}
+		return Term{SInt, "(+ " + strings.Join(terms, " ") + ")"}
+	}
 	return app(SBV(8*nbytes), "concat", parts...)
+}
+
+// byteOf returns byte k (0 = least significant) of an integer value of the given width.
+func byteOf(v Term, k int) Term {
+	if gInt {
+		if k == 0 {
+			return Term{SInt, fmt.Sprintf("(mod %s 256)", v.T)}
+		}
+		return Term{SInt, fmt.Sprintf("(mod (div %s %s) 256)", v.T, pow2(8*k).String())}
+	}
+	return Term{SBV(8), fmt.Sprintf("((_ extract %d %d) %s)", 8*k+7, 8*k, v.T)}
 }
 
 func (fr *frame) writeInt(s *Val, v Term, nbytes int, little bool) {
@@ -78,8 +100,9 @@ func (fr *frame) writeInt(s *Val, v Term, nbytes int, little bool) {
 		} else {
 			k = nbytes - 1 - j
 		}
-		b := Term{SBV(8), fmt.Sprintf("((_ extract %d %d) %s)", 8*k+7, 8*k, v.T)}
+		b := byteOf(v, k)
 		idx := ft.c.Define("wi", app(SIdx, "bvadd", s.sOff(), idxInt(int64(j))))
+		ft.c.AddInst(idx)
 		lv := bk.extend(Step{Idx: &idx}, types.Typ[types.Uint8])
 		ft.store(fr.cur.mem, lv, &Val{T: types.Typ[types.Uint8], L: []Term{b}})
 		for _, c := range compsOf(lv) {
@@ -149,9 +172,18 @@ func init() {
 			// big-endian = byte-reversed little-endian
 			var parts []Term
 			for k := 0; k < nb; k++ {
-				parts = append(parts, Term{SBV(8), fmt.Sprintf("((_ extract %d %d) %s)", 8*k+7, 8*k, le.T)})
+				parts = append(parts, byteOf(le, k))
 			}
-			rev := app(SBV(bits), "concat", parts...)
+			var rev Term
+			if gInt {
+				var terms []string
+				for j, p := range parts {
+					terms = append(terms, fmt.Sprintf("(* %s %s)", pow2(8*(nb-1-j)).String(), p.T))
+				}
+				rev = Term{SInt, "(+ " + strings.Join(terms, " ") + ")"}
+			} else {
+				rev = app(SBV(bits), "concat", parts...)
+			}
 			fr.writeInt(s, fr.ft.c.Define("bo", mkIte(isLE, le, rev)), nb, true)
 			return &Val{T: rt, Tup: []*Val{}}
 		}
@@ -183,21 +215,29 @@ func init() {
 	// math bit casts and predicates
 	intrinsics["math.Float32bits"] = func(fr *frame, c *ssa.CallCommon, args []*Val, rt types.Type, pos token.Pos) *Val {
 		ft := fr.ft
-		b := ft.c.Fresh("f32bits", SBV(32))
+		if args[0].Bits != nil && args[0].Bits.S == SBVraw(32) {
+			return &Val{T: rt, L: []Term{*args[0].Bits}}
+		}
+		b := ft.c.Fresh("f32bits", SBVraw(32))
 		ft.c.Assume(b, mkEq(Term{SF32, "((_ to_fp 8 24) " + b.T + ")"}, args[0].L[0]))
 		return &Val{T: rt, L: []Term{b}}
 	}
 	intrinsics["math.Float64bits"] = func(fr *frame, c *ssa.CallCommon, args []*Val, rt types.Type, pos token.Pos) *Val {
 		ft := fr.ft
-		b := ft.c.Fresh("f64bits", SBV(64))
+		if args[0].Bits != nil && args[0].Bits.S == SBVraw(64) {
+			return &Val{T: rt, L: []Term{*args[0].Bits}}
+		}
+		b := ft.c.Fresh("f64bits", SBVraw(64))
 		ft.c.Assume(b, mkEq(Term{SF64, "((_ to_fp 11 53) " + b.T + ")"}, args[0].L[0]))
 		return &Val{T: rt, L: []Term{b}}
 	}
 	intrinsics["math.Float32frombits"] = func(fr *frame, c *ssa.CallCommon, args []*Val, rt types.Type, pos token.Pos) *Val {
-		return &Val{T: rt, L: []Term{{SF32, "((_ to_fp 8 24) " + args[0].L[0].T + ")"}}}
+		b := args[0].L[0]
+		return &Val{T: rt, L: []Term{{SF32, "((_ to_fp 8 24) " + args[0].L[0].T + ")"}}, Bits: &b}
 	}
 	intrinsics["math.Float64frombits"] = func(fr *frame, c *ssa.CallCommon, args []*Val, rt types.Type, pos token.Pos) *Val {
-		return &Val{T: rt, L: []Term{{SF64, "((_ to_fp 11 53) " + args[0].L[0].T + ")"}}}
+		b := args[0].L[0]
+		return &Val{T: rt, L: []Term{{SF64, "((_ to_fp 11 53) " + args[0].L[0].T + ")"}}, Bits: &b}
 	}
 	intrinsics["math.IsNaN"] = func(fr *frame, c *ssa.CallCommon, args []*Val, rt types.Type, pos token.Pos) *Val {
 		return &Val{T: rt, L: []Term{app(SBool, "fp.isNaN", args[0].L[0])}}
@@ -280,12 +320,12 @@ func init() {
 	// crc32 as an uninterpreted function of (bytes, off, len)
 	intrinsics["hash/crc32.ChecksumIEEE"] = func(fr *frame, c *ssa.CallCommon, args []*Val, rt types.Type, pos token.Pos) *Val {
 		ft := fr.ft
-		ft.c.addPre("crc32", "(declare-fun crc32 ((Array (_ BitVec 64) (_ BitVec 8)) (_ BitVec 64) (_ BitVec 64)) (_ BitVec 32))")
+		ft.c.addPre("crc32", fmt.Sprintf("(declare-fun crc32 (%s %s %s) %s)", SArr(SIdx, SBV(8)), SIdx, SIdx, SBV(32)))
 		s := args[0]
 		if s.Rg != nil {
 			return ft.freshVal("crc", rt)
 		}
-		arr := mkSelect(ft.memGet(fr.cur.mem, u8comp, u8compSort), s.sRef())
+		arr := mkSelect(ft.memGet(fr.cur.mem, u8comp, u8compSortF()), s.sRef())
 		return &Val{T: rt, L: []Term{app(SBV(32), "crc32", arr, s.sOff(), s.sLen())}}
 	}
 
@@ -299,7 +339,7 @@ func init() {
 				fr.checkLoopMod(k)
 			}
 		} else {
-			all := ft.memGet(fr.cur.mem, u8comp, u8compSort)
+			all := ft.memGet(fr.cur.mem, u8comp, u8compSortF())
 			na := ft.c.Fresh("readbuf", SArr(SIdx, SBV(8)))
 			fr.cur.mem.m[u8comp] = ft.c.Define("m$"+u8comp, mkStore(all, p.sRef(), na))
 			fr.checkLoopMod(u8comp)
@@ -307,7 +347,7 @@ func init() {
 		}
 		n := ft.c.Fresh("n", SIdx)
 		err := ft.freshVal("rerr", types.Universe.Lookup("error").Type())
-		ft.c.Assume(n, app(SBool, "bvule", n, p.sLen()))
+		ft.c.Assume(n, uLe(n, p.sLen()))
 		ft.c.Assume(n, mkImp(app(SBool, "bvult", n, p.sLen()), mkNot(mkEq(err.L[0], intConst(0)))))
 		return &Val{T: rt, Tup: []*Val{{T: types.Typ[types.Int], L: []Term{n}}, err}}
 	}
@@ -323,14 +363,14 @@ func init() {
 				fr.checkLoopMod(k)
 			}
 		} else {
-			all := ft.memGet(fr.cur.mem, u8comp, u8compSort)
+			all := ft.memGet(fr.cur.mem, u8comp, u8compSortF())
 			na := ft.c.Fresh("readbuf", SArr(SIdx, SBV(8)))
 			fr.cur.mem.m[u8comp] = ft.c.Define("m$"+u8comp, mkStore(all, p.sRef(), na))
 			fr.checkLoopMod(u8comp)
 		}
 		n := ft.c.Fresh("n", SIdx)
 		err := ft.freshVal("rerr", types.Universe.Lookup("error").Type())
-		ft.c.Assume(n, app(SBool, "bvule", n, p.sLen()))
+		ft.c.Assume(n, uLe(n, p.sLen()))
 		return &Val{T: rt, Tup: []*Val{{T: types.Typ[types.Int], L: []Term{n}}, err}}
 	}
 	intrinsicMods["(io.Reader).Read"] = byteSliceArgMods(0)
@@ -339,7 +379,7 @@ func init() {
 		p := args[1]
 		n := ft.c.Fresh("n", SIdx)
 		err := ft.freshVal("werr", types.Universe.Lookup("error").Type())
-		ft.c.Assume(n, app(SBool, "bvule", n, p.sLen()))
+		ft.c.Assume(n, uLe(n, p.sLen()))
 		ft.c.Assume(n, mkImp(app(SBool, "bvult", n, p.sLen()), mkNot(mkEq(err.L[0], intConst(0)))))
 		return &Val{T: rt, Tup: []*Val{{T: types.Typ[types.Int], L: []Term{n}}, err}}
 	}
